@@ -365,6 +365,11 @@ func (h *DropSeries) Process() (codec.BinaryCodec, error) {
 				return h.rsp, err
 			}
 
+			if len(idsResult) > 0 {
+				// rows of these series that are still in the memtable are still in the write-ahead log:
+				// replayed after a restart they would be written to a new series of the same key
+				engine.FlushShardMemTable(shard)
+			}
 			err = storeTsids(idsResult, dbptInfo, metaClient, shard)
 			if err != nil {
 				return h.rsp, err
